@@ -347,3 +347,49 @@ func ruleC05_5(c *Ctx, r *Rep) {
 	r.Check("C05.5", "C05.5:sql:deliveries.not_before_id", token.NoPos, has && f.OnDelete == "SetNull" && f.RefTable == "deliveries",
 		"ON DELETE SET NULL (last definition in "+f.File+")", "the SQL migrations leave deliveries.not_before_id as ON DELETE "+f.OnDelete+" (last definition: "+f.File+")")
 }
+
+// astInspectCompositeLits calls cb for every element literal of a top-level `var X = []T{ {..}, {..} }`.
+func astInspectCompositeLits(f *ast.File, cb func(varName string, fields map[string]string)) {
+	for _, d := range f.Decls {
+		gd, ok := d.(*ast.GenDecl)
+		if !ok || gd.Tok != token.VAR {
+			continue
+		}
+		for _, sp := range gd.Specs {
+			vs := sp.(*ast.ValueSpec)
+			for i, n := range vs.Names {
+				if i >= len(vs.Values) {
+					continue
+				}
+				cl, ok := vs.Values[i].(*ast.CompositeLit)
+				if !ok {
+					continue
+				}
+				for _, el := range cl.Elts {
+					ecl, ok := el.(*ast.CompositeLit)
+					if !ok {
+						continue
+					}
+					fields := map[string]string{}
+					for _, e := range ecl.Elts {
+						kv, ok := e.(*ast.KeyValueExpr)
+						if !ok {
+							continue
+						}
+						k, _ := kv.Key.(*ast.Ident)
+						if k == nil {
+							continue
+						}
+						switch v := kv.Value.(type) {
+						case *ast.BasicLit:
+							fields[k.Name] = strings.Trim(v.Value, "\"`")
+						case *ast.Ident:
+							fields[k.Name] = v.Name
+						}
+					}
+					cb(n.Name, fields)
+				}
+			}
+		}
+	}
+}
